@@ -13,7 +13,7 @@ import (
 
 var c09Weights = core.OpWeights{
 	core.OpInsert: 20, core.OpInsertNew: 30, core.OpUpdate: 4, core.OpDelete: 34,
-	core.OpClone: 3, core.OpPersist: 10, core.OpReload: 5, core.OpReloadJSON: 1, core.OpDrain: 1,
+	core.OpClone: 3, core.OpPersistFail: 2, core.OpPersist: 10, core.OpReload: 5, core.OpReloadJSON: 1, core.OpDrain: 1,
 }
 
 const opFaulty = "faulty" // a delete (V=0) or insert (V=1) of pool key K during which the N-th Load fails
